@@ -10,6 +10,9 @@ CONSTANTS
   Faults = @FAULTS@
   Ticker = @TICKER@
   CloneOnEmit = @CLONE@
+  ChunkAbort = @ABORT@
+  FixStopDone = @FIXA@
+  FixClosed = @FIXB@
   Admit <- MCAdmit
 INVARIANTS NoDup ChunkBound QueueBound Contract DroppedCounted MuOK Stuck QuietAfterShutdown
 CHECK_DEADLOCK FALSE
